@@ -310,7 +310,7 @@ theorem onEstablished_idrel {s : Sess} (h : IdInv s) (beh : List HAct) (m : InMs
         split
         · exact IdRel.congr_left e1 (IdRel.refl h1)
         · exact IdRel.congr_left e1 (settle_idrel h1 _ _)
-  | invocation id reg p rp => exact idLiftX.onInvocation h beh id reg p rp
+  | invocation id reg p rp => exact idLiftX.onInvocation h beh id reg p _
   | interrupt id => exact idLiftX.settleInv h id _
   | welcome sid => exact out_idrel h rfl
   | abort => exact out_idrel h rfl
